@@ -215,13 +215,11 @@ def cases(tier):
                 yield ('series', kind, n, route)
     for (nr, nc) in sc['frame_shapes']:
         for rk, ck in (('str', 'str'), ('auto', 'auto'), ('int', 'obj'), ('date', 'str'), ('ih', 'str'), ('str', 'ih')):
-            for li in range(4):
-                if li == 3 and nc < 3:
-                    continue
+            for li in layout_specs(nc, tier):
                 yield ('frame1', rk, ck, nr, nc, li)
                 for sh in range(4):
                     yield ('frame2', rk, ck, nr, nc, li, (sh, 4))
-            yield ('bloc', rk, ck, nr, nc)
+            yield ('bloc', rk, ck, nr, nc, tier)
 
 
 def universe(tier):
@@ -289,11 +287,43 @@ def run_series(case, ctx):
 
 
 # ------------------------------------------------------------------ frames
+PATTERNS = {'ifs': 'ifs', 'iis': 'iis', 'iff': 'iff', 'iii': 'iii', 'sii': 'sii'}
+
+
+def layout_specs(nc, tier):
+    '''quick: four hand-picked layouts; thorough: additionally every block layout of five dtype patterns'''
+    out = [li for li in range(4) if not (li == 3 and nc < 3)]
+    if tier != 'quick':
+        for pat in PATTERNS:
+            kinds = (pat * 2)[:nc]
+            protos = [np.empty(1, dtype={'i': np.int64, 'f': np.float64, 's': '<U3'}[k]) for k in kinds]
+            for k in range(sum(1 for _ in U.layouts(protos))):
+                out.append(('full', pat, k))
+    return out
+
+
 def make_frame(rk, ck, nr, nc, li):
     rix, rref = make_axis(rk, nr)
     cix, cref = make_axis(ck, nc)
     cols = []
     grid = []
+    if isinstance(li, tuple):
+        _, pat, k = li
+        for j, kind in enumerate((pat * 2)[:nc]):
+            if kind == 'i':
+                v = [10 * i + j for i in range(nr)]
+                a = np.array(v, dtype=np.int64)
+            elif kind == 'f':
+                v = [10 * i + j + 0.5 for i in range(nr)]
+                a = np.array(v, dtype=np.float64)
+            else:
+                v = ['s%d%d' % (i, j) for i in range(nr)]
+                a = np.array(v, dtype='<U3')
+            cols.append(U.frozen(a))
+            grid.append(v)
+        sig, blocks = list(U.layouts(cols))[k]
+        f = U.frame_from_blocks(blocks, nr, index=rix, columns=cix, name='fn')
+        return f, rref, cref, grid, (pat,) + tuple(sig)
     for j in range(nc):
         if j % 3 == 0:
             v = [10 * i + j for i in range(nr)]
@@ -478,10 +508,8 @@ def run_frame2(case, ctx):
 
 
 def run_bloc(case, ctx):
-    _, rk, ck, nr, nc = case
-    for li in range(4):
-        if li == 3 and nc < 3:
-            continue
+    _, rk, ck, nr, nc, tier = case
+    for li in layout_specs(nc, tier):
         f, rref, cref, grid, sig = make_frame(rk, ck, nr, nc, li)
         for bits in itertools.product((False, True), repeat=nr * nc):
             ctx.transition()
